@@ -145,10 +145,10 @@ type Policy struct {
 	APIFaults   []string
 	HookFault   int // permille per answered hook call
 	HookFaults  []string
-	WatchBreak  int // permille per step: break one open watch stream
-	Crash       int // permille per step
-	EnvProb     int // permille per step: run one environment operation if any is enabled
-	AdvanceProb int // permille per step: advance the clock although other actions are enabled
+	WatchBreak  int  // permille per step: break one open watch stream
+	Crash       int  // permille per step
+	EnvProb     int  // permille per step: run one environment operation if any is enabled
+	AdvanceProb int  // permille per step: advance the clock although other actions are enabled
 	EnvWhenIdle bool // quiet stages: environment operations run whenever the system is idle
 	FaultFilter func(r *ReqRec) bool
 }
@@ -211,15 +211,20 @@ type World struct {
 	Incs       int
 	idleHook   func(w *World)
 
-	Cache      CacheModel
-	Stages     []Stage
-	ss         stageState
-	lastSig    int
-	budget     bool
-	budgetAt   string
-	ResyncHint time.Duration // largest parent resync period configured (quiet-window computation)
-	ExtraQuiet time.Duration // scenario-declared extra delay sources (Retry-After, resyncAfterSeconds)
-	Proc       *Proc
+	Cache CacheModel
+	// Plan, when set, injects exactly one fault at the Pos-th interaction (API
+	// request or hook call made inside a sync) served while the plan is armed.
+	Plan         *FaultPlan
+	Interactions []byte // reference runs: 'A' / 'H' per in-sync interaction served while armed
+	OnCrash      func(w *World) *Violation
+	Stages       []Stage
+	ss           stageState
+	lastSig      int
+	budget       bool
+	budgetAt     string
+	ResyncHint   time.Duration // largest parent resync period configured (quiet-window computation)
+	ExtraQuiet   time.Duration // scenario-declared extra delay sources (Retry-After, resyncAfterSeconds)
+	Proc         *Proc
 }
 
 type workerState struct {
@@ -229,6 +234,32 @@ type workerState struct {
 }
 
 type crashSignal struct{}
+
+// FaultPlan is the single-fault plan of a fault-enumeration run.
+type FaultPlan struct {
+	Pos   int
+	Kind  string // API: crash-before crash-after 404 409 exists 410 422 500 neterr lost; hook: 500 429 refused stall garbage crash
+	Armed bool
+	count int
+	Fired bool
+}
+
+// planFault returns the fault kind to inject for the next in-sync interaction.
+func (w *World) planFault(typ byte) string {
+	if w.Plan == nil {
+		return ""
+	}
+	if !w.Plan.Armed {
+		return ""
+	}
+	w.Interactions = append(w.Interactions, typ)
+	defer func() { w.Plan.count++ }()
+	if w.Plan.count == w.Plan.Pos && !w.Plan.Fired {
+		w.Plan.Fired = true
+		return w.Plan.Kind
+	}
+	return ""
+}
 
 func NewWorld(t *Tape) *World {
 	return &World{
@@ -1047,12 +1078,47 @@ func (w *World) StepOnce(p *Policy) bool {
 		w.Deliver(a.ws)
 	case "serve":
 		fault := ""
+		if a.req.Sync >= 0 {
+			switch k := w.planFault('A'); k {
+			case "":
+			case "crash-before":
+				w.FaultsFired["plan:crash-before"]++
+				w.logf("CRASH before %s", a.req.sig)
+				panic(crashSignal{})
+			case "crash-after":
+				w.FaultsFired["plan:crash-after"]++
+				w.Serve(a.req, "lost")
+				w.logf("CRASH after %s", a.req.sig)
+				panic(crashSignal{})
+			default:
+				w.FaultsFired["plan:"+k]++
+				w.Serve(a.req, k)
+				w.settle()
+				w.checkInvariants()
+				return w.Violation == nil
+			}
+		}
 		if p.APIFault > 0 && len(p.APIFaults) > 0 && (p.FaultFilter == nil || p.FaultFilter(a.req)) && t.Chance(p.APIFault, "apifault?") {
 			fault = p.APIFaults[t.Pick(len(p.APIFaults), "apifault")]
 		}
 		w.Serve(a.req, fault)
 	case "hook":
 		fault := ""
+		if a.hook.Sync >= 0 {
+			switch k := w.planFault('H'); k {
+			case "":
+			case "crash":
+				w.FaultsFired["plan:hook-crash"]++
+				w.logf("CRASH during %s", a.hook.sig)
+				panic(crashSignal{})
+			default:
+				w.FaultsFired["plan:hook-"+k]++
+				w.answerHookWithProgram(a.hook, k)
+				w.settle()
+				w.checkInvariants()
+				return w.Violation == nil
+			}
+		}
 		if p.HookFault > 0 && len(p.HookFaults) > 0 && t.Chance(p.HookFault, "hookfault?") {
 			fault = p.HookFaults[t.Pick(len(p.HookFaults), "hookfault")]
 		}
